@@ -590,7 +590,10 @@ XSS_SIMPLE = ["{v} = 'lit'", "{v} = {w}", "{v} = fn()", "{v} = '{{}}'.format({w}
               "{v} = '{{}}'.format(*({w},), *['z'])", "{v} = '{{}}'.format('{{}}'.format({w}))", "o.attr, {v} = 1, {w}", "{v}, {w} = ({u},)", "pass", "{v}: str = 'lit'",
               "{v} = {w} = 'lit'", "{v} = [{w}]", "{v} = (\n    '{{}}'.format({w}))", "{v} = '{{}}'.format({w}, k={u})", "{v} = {w}.format('a')", "({v}, {w}) = ('p', 'q')",
               "[{v}, {w}] = ['p', 'q']", "{v} = '{{}}'.format(\n    '{{}}'.format(\n        {w}))", "{v} = '%s %s' % ({w},\n    {u})", "{v} = f'{{{w}}}'", "del {v}", "{v} = 'a' 'b'",
-              "fn({v})", "{v} = '{{}}'.format(*fn())", "{v} = '{{}}'.format(*[*['a'], {w}])"]
+              "fn({v})", "{v} = '{{}}'.format(*fn())", "{v} = '{{}}'.format(*[*['a'], {w}])",
+              # three-element target lists, the same name twice (found by tools/mutation: `break` -> `continue` in the tuple walk of evaluate_var survived)
+              "{v}, {w}, {v} = 'p', 'q', {u}", "{v}, {w}, {v} = {u}, 'q', 'p'", "{w}, {v}, {u} = 'p', {u}, 'q'", "{v}, {w}, {u} = {w}, 'p', 'q'", "({v}, {w}, {v}) = ['p', fn(), 'q']",
+              "{v}, {v} = 'p', {w}", "{v}, {v} = {w}, 'p'"]
 XSS_COMPOUND = ["if c:\n{S}else:\n{T}", "if c:\n{S}", "for i in r:\n{S}", "for i in r:\n{S}else:\n{T}", "while c:\n{S}", "try:\n{S}except E:\n{T}", "try:\n{S}except E:\n{T}finally:\n{U}",
                 "try:\n{S}finally:\n{T}", "with o as {v}:\n{S}", "with o as g:\n{S}", "with o as g, p as {v}:\n{S}", "with o as {v}, p as g:\n{S}", "def h_():\n{S}", "class K_:\n{S}",
                 "async def ah_():\n{S}", "if c:\n{S}elif d:\n{T}else:\n{U}", "try:\n{S}except* E:\n{T}", "match c:\n    case 1:\n{SS}",
